@@ -21,7 +21,8 @@ Record rcode := mk_rcode
 
 Record rstore := mk_rs { rs_req : mstore; rs_chunk : cstore; rs_body : str; rs_nums : list N }.  (* response_code_, continue_sent_, is_head_ *)
 Record rstate := mk_rst
-  { r_store : rstore; r_in : str; r_parsed : bool; r_rx : Z; r_cl : Z; r_req : Z; r_next : str }.
+  { r_store : rstore; r_in : str; r_parsed : bool; r_rx : Z; r_cl : Z; r_req : Z; r_next : str;
+    r_nocl : bool (* the local no_content_length of response_receiver::receive *) }.
 
 Inductive rzexp :=
   | RZRx | RZCl | RZReq                      (* the locals rx_size, content_length, required *)
@@ -37,7 +38,8 @@ Inductive rcmp := RGt | RLt | REq.
 Inductive rexp :=
   | RConst (v : bool)
   | RNot (a : rexp) | RAnd (a b : rexp) | ROr (a b : rexp)
-  | RParsed                                  (* the local request_parsed *)
+  | RParsed                                  (* the local request_parsed / response_parsed *)
+  | RNoCl                                    (* the local no_content_length *)
   | RMore                                    (* iter != end, end > iter *)
   | RReqValid | RReqParse                    (* request_.valid(), request_.parse(iter, end) *)
   | RReqLineFail | RReqHdrFail               (* request_.fail(), request_.headers().fail() *)
@@ -58,6 +60,8 @@ Inductive rstmt :=
   | RReturn (v : rxv)
   | RLetParsed (e : rexp)
   | RLetRx (e : rzexp) | RLetCl (e : rzexp) | RLetReq (e : rzexp)
+  | RLetNoCl (e : rexp)                      (* bool no_content_length(e) *)
+  | RAssignCl (e : rzexp)                    (* content_length = e *)
   | RLetNext                                 (* ForwardIterator next(iter + required) *)
   | RInsertToNext | RJumpNext                (* body_.insert(body_.end(), iter, next); iter = next *)
   | RInsertRest | RJumpEnd                   (* body_.insert(body_.end(), iter, end); iter = end *)
@@ -104,8 +108,8 @@ Section Recv.
 
   Definition rnum (st : rstore) (k : nat) : N := nth k (rs_nums st) 0.
   Definition rset (st : rstore) (k : nat) (v : N) : rstore := mk_rs (rs_req st) (rs_chunk st) (rs_body st) (set_nth (rs_nums st) k v).
-  Definition rwith (s : rstate) (st : rstore) : rstate := mk_rst st (r_in s) (r_parsed s) (r_rx s) (r_cl s) (r_req s) (r_next s).
-  Definition rwith_in (s : rstate) (st : rstore) (i : str) : rstate := mk_rst st i (r_parsed s) (r_rx s) (r_cl s) (r_req s) (r_next s).
+  Definition rwith (s : rstate) (st : rstore) : rstate := mk_rst st (r_in s) (r_parsed s) (r_rx s) (r_cl s) (r_req s) (r_next s) (r_nocl s).
+  Definition rwith_in (s : rstate) (st : rstore) (i : str) : rstate := mk_rst st i (r_parsed s) (r_rx s) (r_cl s) (r_req s) (r_next s) (r_nocl s).
 
   Fixpoint reval (e : rexp) (s : rstate) : option (bool * rstate) :=
     let st := r_store s in
@@ -115,6 +119,7 @@ Section Recv.
     | RAnd a b => match reval a s with Some (true, s1) => reval b s1 | r => r end
     | ROr a b => match reval a s with Some (false, s1) => reval b s1 | r => r end
     | RParsed => Some (r_parsed s, s)
+    | RNoCl => Some (r_nocl s, s)
     | RMore => Some (match r_in s with [] => false | _ => true end, s)
     | RReqValid => Some (negb (ms_valid (rs_req st) =? 0), s)
     | RReqParse =>
@@ -165,13 +170,15 @@ Section Recv.
     | RSeq a b => match rexec_gen on_clear a s with Some (None, s1) => rexec_gen on_clear b s1 | r => r end
     | RIf c t e => match reval c s with Some (v, s1) => if v then rexec_gen on_clear t s1 else rexec_gen on_clear e s1 | None => None end
     | RReturn v => Some (Some v, s)
-    | RLetParsed e => match reval e s with Some (v, s1) => Some (None, mk_rst (r_store s1) (r_in s1) v (r_rx s1) (r_cl s1) (r_req s1) (r_next s1)) | None => None end
-    | RLetRx e => match rzeval e s with Some z => Some (None, mk_rst st (r_in s) (r_parsed s) z (r_cl s) (r_req s) (r_next s)) | None => None end
-    | RLetCl e => match rzeval e s with Some z => Some (None, mk_rst st (r_in s) (r_parsed s) (r_rx s) z (r_req s) (r_next s)) | None => None end
-    | RLetReq e => match rzeval e s with Some z => Some (None, mk_rst st (r_in s) (r_parsed s) (r_rx s) (r_cl s) z (r_next s)) | None => None end
+    | RLetParsed e => match reval e s with Some (v, s1) => Some (None, mk_rst (r_store s1) (r_in s1) v (r_rx s1) (r_cl s1) (r_req s1) (r_next s1) (r_nocl s1)) | None => None end
+    | RLetRx e => match rzeval e s with Some z => Some (None, mk_rst st (r_in s) (r_parsed s) z (r_cl s) (r_req s) (r_next s) (r_nocl s)) | None => None end
+    | RLetCl e => match rzeval e s with Some z => Some (None, mk_rst st (r_in s) (r_parsed s) (r_rx s) z (r_req s) (r_next s) (r_nocl s)) | None => None end
+    | RLetReq e => match rzeval e s with Some z => Some (None, mk_rst st (r_in s) (r_parsed s) (r_rx s) (r_cl s) z (r_next s) (r_nocl s)) | None => None end
+    | RLetNoCl e => match reval e s with Some (v, s1) => Some (None, mk_rst (r_store s1) (r_in s1) (r_parsed s1) (r_rx s1) (r_cl s1) (r_req s1) (r_next s1) v) | None => None end
+    | RAssignCl e => match rzeval e s with Some z => Some (None, mk_rst st (r_in s) (r_parsed s) (r_rx s) z (r_req s) (r_next s) (r_nocl s)) | None => None end
     | RLetNext =>
         if ((0 <=? r_req s) && (r_req s <=? Z.of_nat (length (r_in s))))%Z
-        then Some (None, mk_rst st (r_in s) (r_parsed s) (r_rx s) (r_cl s) (r_req s) (skipn (Z.to_nat (r_req s)) (r_in s)))
+        then Some (None, mk_rst st (r_in s) (r_parsed s) (r_rx s) (r_cl s) (r_req s) (skipn (Z.to_nat (r_req s)) (r_in s)) (r_nocl s))
         else None
     | RInsertToNext =>
         let taken := firstn (length (r_in s) - length (r_next s)) (r_in s) in
@@ -204,7 +211,7 @@ Section Recv.
 
   (* a call of receive: the value returned, the receiver afterwards, the input left unread *)
   Definition rrun (body : rstmt) (st : rstore) (input : str) : option (rxv * rstore * str) :=
-    match rexec body (mk_rst st input false 0 0 0 []) with
+    match rexec body (mk_rst st input false 0 0 0 [] false) with
     | Some (Some v, s) => Some (v, r_store s, r_in s)
     | _ => None
     end.
